@@ -241,6 +241,18 @@ def run(pid, tier, seed):
                 f["text"] = swap_names(g["text"], "Aa", "Ee")
             chk.count(1, traces=1)
             judge_case(chk, twin, root, "G-renamed-twin", pid)
+        if pid == "C08" and ci % 4 == 0:
+            # a FAMILY of names: every type name gets one long common prefix, so that the undeclared name is as similar to several
+            # declared ones as they are to each other
+            import re
+            fam = ["Aa", "Ee", "Pp", "Zz", "Mx", "Me", "Ma", "Mz", "Sib", "Nope", "Nowhere", "Alias"]
+            pat = re.compile(r"\b(%s)\b" % "|".join(fam))
+            dumped = json.dumps(c)
+            twin = json.loads(re.sub(r'"(%s)"' % "|".join(fam), lambda m: '"WheelSensor%s"' % m.group(1), dumped))
+            for f, g in zip(twin["files"], c["files"]):
+                f["text"] = pat.sub(lambda m: "WheelSensor" + m.group(1), g["text"])
+            chk.count(1, traces=1)
+            judge_case(chk, twin, root, "G-family-of-similar-names", pid)
         if pid == "C08" and ci % 4 in (1, 2, 3):
             # alpha-renamings that make one type name CONTAIN another: the undeclared name becomes an extension of the declared
             # struct's name / the enum's name an extension of the struct's / the struct's a prefix-free part of the enum's
